@@ -66,6 +66,9 @@ Resolve(c, pal, creg) ==
        IN << BlendCh(t, q0[1], q1[1]), BlendCh(t, q0[2], q1[2]),
              BlendCh(t, q0[3], q1[3]), BlendCh(t, q0[4], q1[4]) >>
 
+(* an indirect operand as the format sees it: PaletteIndexColor / CRegColor take any byte and keep its low six bits *)
+NormC(c) == IF c[1] \in {1, 2} THEN << c[1], c[2] % 64, 0, 0, 0 >> ELSE c
+
 (* Gradient fields of a gradient-encoding RGBA value *)
 GradNStops(q) == q[1] % 64
 GradCBase(q)  == q[2] % 64
